@@ -59,6 +59,8 @@ func (in *Interp) initAll() {
 	in.frozen = nil
 	in.frozenMaps = nil
 	in.sharedWrites = nil
+	in.sharedReads = nil
+	in.atomicWritten = nil
 	in.syncUses = nil
 	in.nondetUses = nil
 	in.MapOrder = in.cfg.MapOrder
@@ -131,8 +133,37 @@ func (in *Interp) freezeVal(v Value) {
 
 func (in *Interp) noteWrite(p *Value) {
 	if in.frozen != nil && in.frozen[p] {
+		if in.inAtomic {
+			if in.atomicWritten == nil {
+				in.atomicWritten = map[*Value]string{}
+			}
+			in.atomicWritten[p] = in.posString()
+			return
+		}
 		in.sharedWrites = append(in.sharedWrites, "store at "+in.posString())
 	}
+}
+
+func (in *Interp) noteRead(p *Value) {
+	if in.frozen != nil && in.frozen[p] {
+		if in.sharedReads == nil {
+			in.sharedReads = map[*Value]string{}
+		}
+		if _, ok := in.sharedReads[p]; !ok {
+			in.sharedReads[p] = in.posString()
+		}
+	}
+}
+
+// atomicConflicts: shared cells that are written atomically by one call and read (at all) on this path.
+func (in *Interp) atomicConflicts() []string {
+	var out []string
+	for p, w := range in.atomicWritten {
+		if r, ok := in.sharedReads[p]; ok {
+			out = append(out, "atomic store at "+w+" / read at "+r)
+		}
+	}
+	return out
 }
 
 func (in *Interp) noteMapWrite(m *Map) {
